@@ -238,6 +238,94 @@ Definition race_defect (c : bool) (st : fs) : option str :=
   if key_absent st then None
   else Some (if c then s "race-compressed-notexist-hit" else s "race-overwrite-partial-hit").
 
+(* ---- read faults: an ERROR RETURN (no process death) part-way through the walk of an output ----
+   fault = Some (o, k): while output o is walked the callback fails at its (k+1)-th entry (an entry
+   the archiver / copier cannot store: a unix socket, a vanished or unreadable file); k entries of o
+   have been handled.  None: no such fault.  An output that does not exist at all (or whose root is
+   the unstorable object) is simply absent from `src`: the Lstat / Walk of the root fails. *)
+Definition fault := option (str * nat).
+
+(* the entries of o handled before the walk stops, and whether it was aborted *)
+Definition walk_f (src : tree) (f : fault) (o : str) : tree * bool :=
+  match f with
+  | Some (fo, k) => if str_eqb fo o then (firstn k (sub [o] src), true) else (sub [o] src, false)
+  | None => (sub [o] src, false)
+  end.
+
+(* uncompressed: storeFile only LOGS RecursiveLink's error (dir_cache.go:170-173); the loop of
+   storeFiles goes on with the next output and Store renames the temporary entry all the same *)
+Definition link_steps_f (pre : path) (src : tree) (f : fault) (o : str) : list step :=
+  match lookup [o] src with
+  | None => []
+  | Some _ => map (add_step pre) (fst (walk_f src f o))
+  end.
+
+Definition out_steps_f (order : list path) (src : tree) (f : fault) (st : fs) (o : str) : list step :=
+  [SMkdir [kT]] ++ rm_steps order [kT; o] (exec st (SMkdir [kT])) ++ link_steps_f [kT] src f o.
+
+Fixpoint outs_steps_f (order : list path) (src : tree) (f : fault) (st : fs) (outs : list str) : list step :=
+  match outs with
+  | [] => []
+  | o :: r => let l := out_steps_f order src f st o in l ++ outs_steps_f order src f (run l st) r
+  end.
+
+Definition store_plain_f (order : list path) (st : fs) (outs : list str) (src : tree) (f : fault) : list step :=
+  let a := rm_steps order [kK] st in
+  let b := outs_steps_f order src f (run a st) outs in
+  a ++ b ++ [SRename [kT] [kK]].
+
+(* compressed: storeCompressed2's loop returns the first error; what has been archived so far, and
+   whether the loop ended in an error *)
+Fixpoint pack_f (src : tree) (f : fault) (outs : list str) : tree * bool :=
+  match outs with
+  | [] => ([], false)
+  | o :: r =>
+      if mem [o] src then
+        let w := walk_f src f o in
+        if snd w then (fst w, true)
+        else let t := pack_f src f r in (fst w ++ fst t, snd t)
+      else ([], true)                                      (* fs.Walk: the root does not exist *)
+  end.
+
+(* the error path of storeCompressed2 / storeCompressed (dir_cache.go:65-69, 88-94): the deferred
+   tw.Close / gw.Close / bw.Flush / f.Close finish a VALID archive of what was written so far
+   (AFail), then storeCompressed removes the temporary file; Store's rename then fails with
+   not-exist, which it ignores.  `rm_on_err` is whether that removal is there (it is: Gen.C12Store,
+   Proof.C12_Gen.comp_error_follows_source). *)
+Definition comp_tail (rm_on_err : bool) (t : tree * bool) : list step :=
+  SAdd [kT] (Tar (fst t)) :: (if snd t then (if rm_on_err then [SUnlink [kT]] else []) else []).
+
+Definition store_comp_g (rm_on_err : bool) (order : list path) (st : fs) (outs : list str) (src : tree) (f : fault) : list step :=
+  let a := rm_steps order [kK] st in
+  let b := rm_steps order [kT] (run a st) in
+  a ++ b ++ [SAdd [kT] Junk] ++ comp_tail rm_on_err (pack_f src f outs) ++ [SRename [kT] [kK]].
+
+Definition store_comp_f := store_comp_g true.
+
+Definition store_steps_f (c : bool) := if c then store_comp_f else store_plain_f.
+
+(* the source tree a faulted uncompressed store effectively stores: of output o only the first k
+   walked entries *)
+Fixpoint cut (o : str) (k : nat) (src : tree) : tree :=
+  match src with
+  | [] => []
+  | e :: r =>
+      if is_prefix [o] (fst e)
+      then match k with 0 => cut o 0 r | S k' => e :: cut o k' r end
+      else e :: cut o k r
+  end.
+
+(* classifier of the known defect class of faulted stores: an uncompressed store whose walk of a
+   directory output stops after at least its root and before its end *)
+Definition fault_defect (c : bool) (src : tree) (f : fault) : option str :=
+  match f with
+  | None => None
+  | Some (o, k) =>
+      if c then None
+      else if Nat.eqb k 0 || Nat.leb (length (sub [o] src)) k || negb (mem [o] src) then None
+      else Some (s "plain-store-walk-error-partial-hit")
+  end.
+
 (* ---- correspondence cases ---- *)
 Definition ent_eqb (a b : ent) : bool :=
   match a, b with
@@ -274,7 +362,11 @@ Inductive case :=
 | CStore (c : bool) (order : list path) (prior : fs) (outs : list str) (src : tree)
          (crashed : bool) (post : fs) (res : result)
 (* Retrieve of a key with no entry *)
-| CMissing (c : bool) (st : fs) (outs : list str) (hit : bool).
+| CMissing (c : bool) (st : fs) (outs : list str) (hit : bool)
+(* a store that meets a read fault `f` (and / or outputs absent from `src`), run to its end, then a
+   Retrieve into a clean output directory *)
+| CFault (c : bool) (order : list path) (prior : fs) (outs : list str) (src : tree) (f : fault)
+         (post : fs) (res : result).
 
 Definition check (k : case) : bool :=
   match k with
@@ -287,4 +379,7 @@ Definition check (k : case) : bool :=
       && (negb (all_present src outs) || wfb (pack src outs))
   | CMissing c st outs hit =>
       key_absent st && result_eqb (retrieve c st outs) Miss && negb hit
+  | CFault c order prior outs src f post res =>
+      set_eqb pn_eqb (run (store_steps_f c order prior outs src f) prior) post
+      && result_eqb (retrieve c post outs) res
   end.
